@@ -3,6 +3,7 @@ package c19
 import (
 	"errors"
 	"fmt"
+	"strings"
 
 	"verifh/engine"
 
@@ -18,7 +19,7 @@ type flakySMS struct {
 var errDelivery = errors.New("sms gateway: delivery failed")
 
 func (f *flakySMS) SendCode(area, phone, code string) error {
-	f.msgs = append(f.msgs, msg{area, phone, code})
+	f.msgs = append(f.msgs, msg{strings.Clone(area), strings.Clone(phone), strings.Clone(code)})
 	if f.fail {
 		return errDelivery
 	}
